@@ -163,6 +163,11 @@ Definition print_pqr (whitespace is_cif : bool) (lines : list string) : string :
   String.concat "" (map (write_line whitespace is_cif) lines)
   ++ (if is_cif then "#" ++ nl else "").
 
+(* the non-empty chunks written to the file; with --whitespace each chunk is
+   one line of the file *)
+Definition file_chunks (whitespace is_cif : bool) (lines : list string) : list string :=
+  filter (fun s => negb (is_empty s)) (map (write_line whitespace is_cif) lines).
+
 (* ---- int() / float() on a whitespace-free ASCII token --------------------- *)
 
 Definition is_digit (c : ascii) : bool :=
@@ -235,22 +240,52 @@ Definition lower (c : ascii) : ascii :=
 Fixpoint map_chars (f : ascii -> ascii) (s : string) : string :=
   match s with EmptyString => EmptyString | String c r => String (f c) (map_chars f r) end.
 
-Definition floaty_char (c : ascii) : bool :=
-  is_digit c || (c =? "+")%char || (c =? "-")%char || (c =? ".")%char
-  || (c =? "_")%char || (c =? "e")%char || (c =? "E")%char.
+(* digitpart = D ( "_"? D )*.  st: 0 nothing read yet, 1 after a digit, 2 after an
+   underscore.  Some rest = a digitpart was read; None = no digitpart here *)
+Fixpoint digitpart (st : nat) (s : string) : option string :=
+  match s with
+  | EmptyString => if (st =? 1)%nat then Some s else None
+  | String c r =>
+      if is_digit c then digitpart 1 r
+      else if (st =? 1)%nat then (if (c =? "_")%char then digitpart 2 r else Some s)
+      else None
+  end.
 
-(* Python float(token).  Plain decimals are evaluated ([FNum]); tokens that
-   certainly raise ValueError are [FNot]; the remaining spellings Python
-   accepts or might accept (exponents, underscores, inf/nan) are outside the
-   modelled domain and reported as [FUnsup]. *)
+Definition is_e (c : ascii) : bool := (c =? "e")%char || (c =? "E")%char.
+
+(* the finite-number syntax float() accepts on an ASCII token:
+   [+-]? ( digitpart? "." digitpart | digitpart "."? ) ( [eE] [+-]? digitpart )? *)
+Definition float_syntax (s : string) : bool :=
+  let body := snd (sign_split s) in
+  let (had_i, r1) :=
+    match digitpart 0 body with Some r => (true, r) | None => (false, body) end in
+  let (ok_m, r3) :=
+    match r1 with
+    | String c r2 =>
+        if (c =? dot_char)%char then
+          match digitpart 0 r2 with Some r => (true, r) | None => (had_i, r2) end
+        else (had_i, r1)
+    | EmptyString => (had_i, r1)
+    end in
+  ok_m &&
+  match r3 with
+  | EmptyString => true
+  | String c r4 =>
+      if is_e c then
+        match digitpart 0 (snd (sign_split r4)) with Some EmptyString => true | _ => false end
+      else false
+  end.
+
+(* Python float(token) on an ASCII token.  Plain decimals are evaluated
+   ([FNum]); other spellings Python accepts (exponent, underscores, inf/nan)
+   are recognised but their value is outside the model ([FUnsup]); everything
+   else raises ValueError ([FNot]). *)
 Definition py_float (s : string) : fl :=
   match plain_decimal s with
   | Some p => FNum p
   | None =>
       let body := map_chars lower (snd (sign_split s)) in
-      if mem_str body ["inf"; "infinity"; "nan"] then FUnsup
-      else if all_chars floaty_char s && any_char is_digit s then FUnsup
-      else FNot
+      if mem_str body ["inf"; "infinity"; "nan"] || float_syntax s then FUnsup else FNot
   end.
 
 (* ---- Atom.from_pqr_line ------------------------------------------------------ *)
@@ -273,7 +308,7 @@ Inductive presult :=
   | PAtom (a : patom)
   | PValueError
   | PIndexError                (* words.pop(0) on an empty list *)
-  | PUnsupported.              (* a float() spelling outside the model *)
+  | PUnsupported.              (* float() succeeds with a value outside the model *)
 
 Definition skip_words : list string :=
   ["REMARK"; "TER"; "END"; "HEADER"; "TITLE"; "COMPND"; "SOURCE"; "KEYWDS";
